@@ -4,10 +4,12 @@ import (
 	"bytes"
 	"fmt"
 	"io/fs"
+	"os"
 	"path/filepath"
 	"reflect"
 	"sort"
 	"strings"
+	"time"
 
 	"github.com/goreleaser/nfpm/v2"
 	"github.com/goreleaser/nfpm/v2/files"
@@ -359,6 +361,72 @@ func c13ConfigRoute(c *Ctx, fam *report.Family, mk func() *nfpm.Config, in map[s
 // c13TaggedContents: "content entries addressed to a packager never appear in another format's package" – decided on
 // the packages: every entry type x every packager tag, once without any override block and once with a block for the
 // format being built that sets an unrelated field (Config.Get filters contents itself only in that case).
+// c13CLI: the override block of a format reaches the package through the command as well, whether the packager is named
+// (-p) or guessed from the target's extension.
+func c13CLI(c *Ctx) {
+	fam := c.Rep.Family("override-blocks-through-the-command", "exhaustive: one configuration with an override block per format (depends, umask, one extra entry) x 5 formats x {packager named with -p, packager guessed from the target's extension (not archlinux, whose extension the command does not recognise)}: the built `nfpm package` vs nfpm.Parse + Config.Get(format) + WithDefaults + Package in process, byte for byte (mtime fixed); non-trivial = always")
+	fam.Exhaustive = true
+	if c.Repo == "" {
+		return
+	}
+	root := filepath.Join(c.Tmp, "c13cli")
+	_ = os.MkdirAll(root, 0o755)
+	bin, err := BuildNfpmBinary(c.Repo, root)
+	if err != nil {
+		c.Rep.Note("override-blocks-through-the-command: %v", err)
+		return
+	}
+	tool := filepath.Join(root, "tool.sh")
+	_ = os.WriteFile(tool, []byte("#!/bin/sh\necho tool\n"), 0o755)
+	_ = os.Chtimes(tool, time.Unix(1600000000, 0), time.Unix(1600000000, 0))
+	var y strings.Builder
+	y.WriteString("name: verifpkg\narch: amd64\nplatform: linux\nversion: 1.2.3\nmaintainer: Verif <verif@example.com>\ndescription: override blocks through the command\nmtime: 2023-11-14T22:13:20Z\ndepends: [base-dependency]\nrpm:\n  buildhost: buildhost.example\ncontents:\n- src: " + tool + "\n  dst: /usr/bin/tool\noverrides:\n")
+	for _, f := range Formats {
+		fmt.Fprintf(&y, "  %s:\n    depends: [only-%s]\n    umask: 0o077\n    contents:\n    - src: %s\n      dst: /usr/bin/tool\n    - src: %s\n      dst: /usr/bin/tool-%s\n", f, f, tool, tool, f)
+	}
+	for i, f := range Formats {
+		cfg, perr := nfpm.Parse(strings.NewReader(y.String()))
+		if perr != nil {
+			c.Rep.Note("override-blocks-through-the-command: document does not parse: %v", perr)
+			return
+		}
+		info, gerr := cfg.Get(f)
+		if gerr != nil {
+			continue
+		}
+		want, berr := BuildPkg(f, nfpm.WithDefaults(info))
+		if berr != nil {
+			c.Rep.Note("override-blocks-through-the-command: %s does not build in process: %v", f, berr)
+			continue
+		}
+		for _, how := range []string{"named", "guessed"} {
+			if how == "guessed" && f == "archlinux" {
+				continue // the command guesses from the last extension: ".pkg.tar.zst" names no packager (C15's decision table)
+			}
+			dir := filepath.Join(root, fmt.Sprintf("%s-%s-%d", f, how, i))
+			_ = os.MkdirAll(filepath.Join(dir, "out"), 0o755)
+			_ = os.WriteFile(filepath.Join(dir, "nfpm.yaml"), []byte(y.String()), 0o644)
+			rel := filepath.Join("out", "pkg"+cliExt[f])
+			args := []string{"-t", rel}
+			if how == "named" {
+				args = append([]string{"-p", f}, args...)
+			}
+			code, out := runNfpm(bin, dir, args...)
+			fam.Eval(f+"|"+how, true)
+			in := map[string]any{"format": f, "packager": how, "config": y.String(), "args": append([]string{"package"}, args...)}
+			got, rerr := os.ReadFile(filepath.Join(dir, rel))
+			switch {
+			case code != 0 || rerr != nil:
+				c.Rep.Find(report.Finding{Property: "C13", Family: fam.Name, Shape: "command:" + how + ":fails",
+					What: fmt.Sprintf("`nfpm package %s` exits %d (%v): %s", strings.Join(args, " "), code, rerr, cliCause(out)), Input: in})
+			case !bytes.Equal(got, want):
+				c.Rep.Find(report.Finding{Property: "C13", Family: fam.Name, Shape: "command:" + how + ":package-differs-from-effective-settings",
+					What: fmt.Sprintf("the %s package `nfpm package %s` writes differs from the one built in process from Config.Get(%q) of the same configuration (the override block of the format sets depends, umask and contents): %s", f, strings.Join(args, " "), f, diffWhat(want, got)), Input: in})
+			}
+		}
+	}
+}
+
 func c13TaggedContents(c *Ctx) error {
 	fam := c.Rep.Family("tagged-contents-in-packages", "exhaustive: every entry type (file, config, config|noreplace, dir, symlink, tree, ghost, doc, licence, license, readme) x every packager tag (none + 5 formats) as one entry of a YAML configuration x {no override block, an override block for the built format that only sets depends} x 5 formats: nfpm.Parse, Config.Get(format), Package, independent decoding; the entry is in the package iff it is addressed to that format (or to all) and its type exists there; non-trivial = the entry is tagged")
 	fam.Exhaustive = true
@@ -575,6 +643,7 @@ func runC13(c *Ctx) error {
 	if err := c13TaggedContents(c); err != nil {
 		return err
 	}
+	c13CLI(c)
 	// validation rejects override blocks for names that are not registered packagers – also names that differ from a
 	// registered one only by letter case or blanks (Config.Get would never apply such a block)
 	famV := c.Rep.Family("override-block-names", "exhaustive: override blocks keyed by names that are not registered packagers (another word, each registered name in upper case, capitalised, with a trailing blank): Config.Validate and nfpm.Parse must reject them, nfpm.Get(name) must not hand out a packager for them; and for every registered name they must accept; non-trivial = always")
